@@ -37,6 +37,12 @@ def hostile(rnd, magic_bytes, hdr):
     yield "bad-utf8", hdr + b"u\x02\x00\x00\x00\xff\xfe"
     yield "long-100k-tuple", hdr + b"(" + struct.pack("<i", 100000) + b"N" * 100000
     yield "selfref-list", hdr + b"\xdb\x01\x00\x00\x00r\x00\x00\x00\x00"
+    # a negative string length inside a container: a reader that steps BACK by that length re-reads the same item for ever
+    yield "dict-negstr", hdr + b"{s" + neg + b"N0"
+    yield "dict-negstr-key-value", hdr + b"{s" + neg + b"s" + neg + b"0"
+    yield "list-negstr", hdr + b"[" + big + b"s" + neg
+    yield "tuple-neg-unicode", hdr + b"(" + big + b"u" + neg
+    yield "dict-neg-float", hdr + b"{f\xfbN0"
 
 
 def run(r):
@@ -104,7 +110,8 @@ def run(r):
             if o["ms"] > 10000:
                 slow.append((c["kind"], c["src"], o["ms"]))
                 host_magic = c["bytes"][:2] == [203, 13]     # 3531: the magic of the interpreter running the quick tier (/venv, 3.12)
-                if c["kind"] == "hostile:huge-tuple" and host_magic and r.is_known("D32"):
+                # D32's region: a host-magic file whose first object is '(' with length 0x7fffffff (whatever follows it)
+                if host_magic and c["bytes"][16:21] == [40, 255, 255, 255, 127] and r.is_known("D32"):
                     r.known_finding("D32", "file with the host's own magic and a 2^31-1 tuple length: the builtin marshal fast path spends tens of seconds allocating before failing")
                     continue
                 r.violation({"component": "load_module", "input_bytes": c["bytes"][:400], "input_len": len(c["bytes"]), "kind": c["kind"], "src": c["src"], "ms": o["ms"], "why": "did not terminate promptly (> 10 s)"})
